@@ -1,23 +1,23 @@
 """Storage column: SubstateLocks (C13), SubstateStore/Overlay (C14, C15), KeyMapper (C16),
 Track (C12), StateTree (C17, C18), MerkleCommit (C19), TxTracker (C07)."""
-import json, os
+import json, os, shutil
 import core
 from core import tlc, tlc_must_pass, vh, ToolError, write_ndjson, read_ndjson, validate_trace
 
 
-def replay_behaviours(ctx, binary, module, behaviours, vh_args=(), what="behaviour"):
+def replay_behaviours(ctx, binary, module, behaviours, vh_args=(), what="behaviour", mode="replay"):
     """spec -> impl: feed behaviours to `vh <module> replay`; every mismatch is a violation."""
     if not behaviours:
         raise ToolError("no behaviours generated for " + module)
     p = ctx.wpath(module + "-beh.ndjson")
     write_ndjson(p, behaviours)
-    rc, out = vh(binary, [module, "replay"] + list(vh_args), stdin_path=p)
+    rc, out = vh(binary, [module, mode] + list(vh_args), stdin_path=p)
     done = None
     for line in out.splitlines():
         o = json.loads(line)
         if "mismatch" in o:
             b = behaviours[o["b"]]
-            ctx.violation("%s:%s" % (module, o["mismatch"]),
+            ctx.violation("%s:%s:%s" % (module, mode, o["mismatch"]),
                           "%s step %d: %s expected %s got %s" % (what, o["step"], o["mismatch"],
                                                                  json.dumps(o["exp"])[:200], json.dumps(o["got"])[:200]),
                           {"module": module, "behaviour": b, "step": o["step"], "mismatch": o})
@@ -79,7 +79,304 @@ def C13(ctx):
                     "(6 nodes x 8 keys) validated by TraceSubstateLocks; distinct = distinct behaviours" % k}
 
 
+# ---------------------------------------------------------------------------------------------
+def _store_behaviours(ctx, nsim):
+    """S (overlay refinement, two instances) + behaviours (tiny exhaustive + seeded simulation)."""
+    from concurrent.futures import ThreadPoolExecutor
+    with ThreadPoolExecutor(max_workers=4) as ex:
+        fa = ex.submit(tlc, "SubstateStore", "MCOverlay", cfg="MCOverlayA", workers=4)
+        fb = ex.submit(tlc, "SubstateStore", "MCOverlay", cfg="MCOverlayB", workers=4)
+        ft = ex.submit(tlc, "SubstateStore", "GenStore", cfg="GenStoreTiny", workers=2, coverage=False)
+        fs = ex.submit(tlc, "SubstateStore", "GenStore", cfg="SimStore", workers=1, coverage=False,
+                       simulate=nsim, depth=6, seed=ctx.seed)
+        ra, rb, rt, rs = fa.result(), fb.result(), ft.result(), fs.result()
+    for r, w in ((ra, "MCOverlayA"), (rb, "MCOverlayB")):
+        tlc_must_pass(r, w, required_actions=["OCommit", "OMerge"])
+        ctx.add_tlc(r)
+    beh = rt.printed("B") + rs.printed("B")
+    if len(beh) < nsim:
+        raise ToolError("store behaviour generation produced only %d behaviours" % len(beh))
+    return beh
+
+
+def C14(ctx):
+    beh = _store_behaviours(ctx, 400 if ctx.quick else 6000)
+    ctx.sample({"behaviour": beh[len(beh) // 2]})
+    replay_behaviours(ctx, "vh_store", "store", beh, mode="overlay")
+    distinct = len({json.dumps(b, sort_keys=True) for b in beh if len(b) > 1})
+    return {"distinct_nontrivial": distinct,
+            "rule": "S: TLC checks that the overlay (merge_database_updates + staged-first reads) refines the flat database "
+                    "(Refines, ListsAgree, MergeExact) on all bases x all commit sequences of two small instances. "
+                    "G: all behaviours of the tiny instance (1 partition x 2 keys, 2 commits) + seeded simulated behaviours "
+                    "(3 partitions x 3 keys x 2 values, 4 commits incl. resets/deltas/deletes) replayed into "
+                    "SubstateDatabaseOverlay over InMemorySubstateDatabase: after every commit every get and every listing "
+                    "from every cursor (on, between, below and above keys; None) is compared with the model, also through a "
+                    "two-level overlay, and after commit_overlay_into_root_store. distinct = distinct behaviours with >=1 commit"}
+
+
+def C15(ctx):
+    q = ctx.quick
+    beh = _store_behaviours(ctx, 150 if q else 2500)
+    if q:
+        beh = beh[:120] + beh[784:]
+    ctx.sample({"behaviour": beh[len(beh) // 2]})
+    d = ctx.wpath("stores")
+    replay_behaviours(ctx, "vh_store", "store", beh, vh_args=["dir=" + d], mode="stores")
+    # T: histories over arbitrary byte-string keys, validated by TraceStore
+    tp = ctx.wpath("stores-trace.ndjson")
+    runs, ln = (12, 10) if q else (150, 14)
+    vh("vh_store", ["store", "record", "seed=%d" % ctx.seed, "runs=%d" % runs, "len=%d" % ln, "dir=" + d + "-rec"],
+       stdout_path=tp)
+    evs = read_ndjson(tp)
+    ctx.sample({"trace_event": evs[1]})
+    # split at reset events over parallel TLC validators
+    _validate_split(ctx, "SubstateStore", "TraceStore", evs, "stores:trace", "three stores vs abstract database")
+    os.unlink(tp)
+    # probe: prefix-related sort keys in one partition (keys [] < [1] < [1,2]; set 1,2 / set 3 / delete 2);
+    # the abstract database lists ranks [1,2], [1,2,3], [1,3]
+    rc, outp = vh("vh_store", ["store", "prefix", "dir=" + d + "-pfx"])
+    for line in outp.splitlines():
+        o = json.loads(line)
+        if o["panic"]:
+            ctx.violation("stores:prefix-related-sort-keys:%s panics" % o["store"],
+                          "%s panics when a partition holds a sort key that is a prefix of another one" % o["store"], o)
+        elif o["lists"] != [[1, 2], [1, 2, 3], [1, 3]]:
+            ctx.violation("stores:prefix-related-sort-keys:%s listing" % o["store"], "wrong listing with prefix-related sort keys", o)
+    shutil.rmtree(d, ignore_errors=True)
+    shutil.rmtree(d + "-rec", ignore_errors=True)
+    shutil.rmtree(d + "-pfx", ignore_errors=True)
+    distinct = len({json.dumps(b, sort_keys=True) for b in beh if len(b) > 1}) + runs
+    return {"distinct_nontrivial": distinct,
+            "rule": "G: model behaviours (see C14) committed to InMemorySubstateDatabase, RocksdbSubstateStore and "
+                    "RocksDBWithMerkleTreeSubstateStore (all behaviours share one on-disk store per implementation, node keys tagged per behaviour; every 40th behaviour closes and reopens the RocksDB stores after each commit); every get, "
+                    "every listing from every cursor and the set of listed partitions of each store compared with the model. "
+                    "T: seeded histories over arbitrary byte-string node keys (1-50 bytes, prefix-related), partition numbers "
+                    "incl. 0/255, sort keys incl. empty, 0xff-runs and prefix-related keys; each store's full ordered content, "
+                    "partition set and probed gets/cursor listings validated by TraceStore.tla. distinct = behaviours + recorded runs"}
+
+
+def _validate_split(ctx, spec_dir, module, evs, key, what, max_chunks=12, **kw):
+    """Cuts a recorded trace at `reset` events into independent traces validated in parallel."""
+    from concurrent.futures import ThreadPoolExecutor
+    runs, cur = [], []
+    for e in evs:
+        if e.get("a") == "reset" and cur:
+            runs.append(cur)
+            cur = []
+        cur.append(e)
+    if cur:
+        runs.append(cur)
+    n = max(1, min(max_chunks, len(runs)))
+    chunks = [[] for _ in range(n)]
+    for i, r in enumerate(runs):
+        chunks[i % n].extend(r)
+
+    def one(i):
+        p = ctx.wpath("%s-chunk%d.ndjson" % (module, i))
+        write_ndjson(p, chunks[i])
+        ok, idx, r = validate_trace(spec_dir, module, p, **kw)
+        os.unlink(p)
+        return ok, idx, r, chunks[i]
+
+    with ThreadPoolExecutor(max_workers=min(n, 8)) as ex:
+        res = list(ex.map(one, range(n)))
+    good = True
+    for ok, idx, r, ch in res:
+        ctx.cov["evaluations"] += len(ch)
+        if ok:
+            ctx.cov["traces_validated_against_impl"] += sum(1 for e in ch if e.get("a") == "reset") or 1
+            continue
+        good = False
+        lo = max(0, (idx or 1) - 2)
+        ctx.violation(key, "%s: trace rejected at event %s (%s)" % (what, idx, r.violated),
+                      {"trace_module": module, "first_unmatched": idx, "context": ch[lo:(idx or 1)], "tlc_violated": r.violated})
+    return good
+
+
+# ---------------------------------------------------------------------------------------------
+TREE_LIBS = ["SubstateStore"]
+
+
+def _tree_behaviours(ctx, nsim, tiny=True):
+    from concurrent.futures import ThreadPoolExecutor
+    with ThreadPoolExecutor(max_workers=3) as ex:
+        fs = ex.submit(tlc, "StateTree", "GenTree", cfg="SimTree", workers=1, coverage=False,
+                       simulate=nsim, depth=6, seed=ctx.seed, libs=TREE_LIBS)
+        ft = ex.submit(tlc, "StateTree", "GenTree", cfg="GenTreeTiny", workers=2, coverage=False, libs=TREE_LIBS) if tiny else None
+        rs = fs.result()
+        rt = ft.result() if ft else None
+    beh = (rt.printed("B") if rt else []) + rs.printed("B")
+    if len(beh) < nsim:
+        raise ToolError("tree behaviour generation produced only %d behaviours" % len(beh))
+    return beh
+
+
+def C17(ctx):
+    q = ctx.quick
+    from concurrent.futures import ThreadPoolExecutor
+    with ThreadPoolExecutor(max_workers=2) as ex:
+        fm = ex.submit(tlc, "StateTree", "MCStateTree", workers=4, libs=TREE_LIBS)
+        fb = ex.submit(_tree_behaviours, ctx, 300 if q else 5000)
+        r, beh = fm.result(), fb.result()
+    tlc_must_pass(r, "MCStateTree")
+    ctx.add_tlc(r)
+    if q:
+        beh = beh[:400] + beh[3136:]
+    ctx.sample({"behaviour_step": beh[-1][1]})
+    d = ctx.wpath("tree")
+    replay_behaviours(ctx, "vh_store", "tree", beh, vh_args=["dir=" + d, "merkle=%d" % (40 if q else 25)], mode="tree")
+    shutil.rmtree(d, ignore_errors=True)
+    distinct = len({json.dumps(b, sort_keys=True) for b in beh})
+    return {"distinct_nontrivial": distinct,
+            "rule": "S: TLC checks on all 512 databases of a 3-partition instance that the commitment term is binding (different "
+                    "substate sets give different root terms), that the empty state has the placeholder root and that the term "
+                    "mentions exactly the live entities. G: model behaviours (tiny exhaustive: 2 partitions x 2 keys, all bases x all "
+                    "commits; seeded simulation: 4 partitions over 3 entities x 4 sort keys with shared bit prefixes, 4 commits incl. "
+                    "resets, deletes to empty, re-creation) replayed into put_at_next_version (with and without pruning), "
+                    "StateTreeUpdatingDatabase and RocksDBWithMerkleTreeSubstateStore; after EVERY commit the returned root is compared "
+                    "with the model's term evaluated with an independent blake2b, list_substate_hashes with the model's leaves, and "
+                    "the same state is rebuilt by one commit and by one substate per commit (batching independence). "
+                    "distinct = distinct behaviours"}
+
+
+def C18(ctx):
+    q = ctx.quick
+    r = tlc("StateTree", "PruneModel", workers=6, consts={"MaxVer": 2 if q else 3})
+    tlc_must_pass(r, "PruneModel", required_actions=["PCommit"])
+    ctx.add_tlc(r)
+    tp = ctx.wpath("prune-trace.ndjson")
+    runs, ln = (40, 8) if q else (1500, 10)
+    vh("vh_store", ["tree", "prune", "seed=%d" % ctx.seed, "runs=%d" % runs, "len=%d" % ln], stdout_path=tp)
+    evs = read_ndjson(tp)
+    os.unlink(tp)
+    ctx.sample({"trace_event": {k: (v if k != "inserted" else v[:3]) for k, v in evs[2].items()}})
+    # long histories with a tiny universe (re-creation is frequent)
+    tp2 = ctx.wpath("prune-long.ndjson")
+    vh("vh_store", ["tree", "prune", "seed=%d" % (ctx.seed + 1), "runs=%d" % (4 if q else 100), "len=%d" % (60 if q else 200)], stdout_path=tp2)
+    evs += read_ndjson(tp2)
+    os.unlink(tp2)
+    _validate_split(ctx, "StateTree", "TraceStateTree", evs, "statetree:prune-trace", "state tree node store")
+    # binding self-test: a trace with one inserted node removed must be rejected (Live)
+    bad = [e for e in evs[:ln + 1]]
+    victim = None
+    for i, e in enumerate(bad):
+        if e.get("a") == "commit" and len(e["inserted"]) > 3 and e["substates"] > 1:
+            victim = i
+    if victim is not None:
+        e = json.loads(json.dumps(bad[victim]))
+        e["inserted"] = [x for x in e["inserted"] if x["id"] != e["root"]][1:]
+        bad[victim] = e
+        p = ctx.wpath("prune-selftest.ndjson")
+        write_ndjson(p, bad)
+        ok, idx, rr = validate_trace("StateTree", "TraceStateTree", p)
+        os.unlink(p)
+        if ok:
+            raise ToolError("self-test: TraceStateTree accepted a trace with a missing tree node")
+    commits = sum(1 for e in evs if e.get("a") == "commit")
+    return {"distinct_nontrivial": len({json.dumps(e["inserted"], sort_keys=True) for e in evs if e.get("a") == "commit" and e["inserted"]}),
+            "rule": "S: TLC checks Live/StaleDead/NoGarbage on every history (<= %d commits, 4 keys, 2 values) of a reference path-copying "
+                    "collapsed trie with exact stale reports (PruneModel). T: a logging TreeStore around TypedInMemoryTreeStore records "
+                    "every inserted node (children, cross-tier links) and every stale part of seeded histories (3 entities x 3 partitions x "
+                    "4 sort keys; deltas, deletes, resets, whole-entity deletion and re-creation; pruning on in 3 of 4 runs); "
+                    "TraceStateTree.tla rebuilds the node graph, applies pruning as reported and checks after EVERY commit that all "
+                    "nodes reachable from the new root are stored, that nothing reported stale (now or earlier) is reachable, and that "
+                    "the implementation's full read succeeds. %d commits validated; distinct = distinct inserted-node sets" % (2 if q else 3, commits)}
+
+
+def C19(ctx):
+    q = ctx.quick
+    from concurrent.futures import ThreadPoolExecutor
+    ra = tlc("MerkleCommit", "MerkleCommit", cfg="MCMerkleBatch", workers=4, libs=TREE_LIBS)
+    tlc_must_pass(ra, "MerkleCommit(batch)", required_actions=["Begin", "Step", "Crash"])
+    ctx.add_tlc(ra)
+    # negative control: the design with individual substate writes must violate Consistent
+    rb = tlc("MerkleCommit", "MerkleCommit", cfg="MCMerkleDirect", workers=2, libs=TREE_LIBS)
+    if rb.violated != "Consistent":
+        raise ToolError("negative control failed: the 'direct' commit program should violate Consistent")
+    nproc = 8
+    beh = _tree_behaviours(ctx, 16 if q else 160, tiny=False)
+    ctx.sample({"behaviour_step": beh[0][1]})
+    chunks = [beh[i::nproc] for i in range(nproc)]
+    d = ctx.wpath("crash")
+
+    def one(i):
+        if not chunks[i]:
+            return []
+        pin = ctx.wpath("crash-in%d.ndjson" % i)
+        pout = ctx.wpath("crash-out%d.ndjson" % i)
+        write_ndjson(pin, chunks[i])
+        vh("vh_store", ["tree", "crash", "dir=%s-%d" % (d, i), "points=%s" % ("sample" if q else "all"), "seed=%d" % (ctx.seed + i)],
+           stdin_path=pin, stdout_path=pout, timeout=7200)
+        evs = read_ndjson(pout)
+        os.unlink(pin)
+        os.unlink(pout)
+        return evs
+
+    with ThreadPoolExecutor(max_workers=nproc) as ex:
+        parts = list(ex.map(one, range(nproc)))
+    evs = [e for p in parts for e in p]
+    crashes = [e for e in evs if e.get("a") == "crash"]
+    if not crashes:
+        raise ToolError("no crash points were exercised")
+    ctx.sample({"crash_event": crashes[len(crashes) // 2]})
+    _validate_split(ctx, "MerkleCommit", "TraceMerkleCommit", evs, "merkle:crash-trace", "crash-point enumeration",
+                    libs=["SubstateStore", "StateTree"])
+    stopped = sum(1 for e in crashes if e["crashed"])
+    kinds = sorted({o.split(":")[0] for e in crashes for o in e["ops"]})
+    multi = sum(1 for e in crashes if e["of"] > 1)
+    return {"distinct_nontrivial": len({(json.dumps(e["upd"]), e["w"], e["step"]) for e in crashes if e["crashed"]}),
+            "exhaustive": not q,
+            "rule": "S: TLC checks Consistent/PreOrPost for every crash position of the commit program as coded (one atomic batch, then "
+                    "pruning deletes) over all updates of a small instance, and as a negative control that the pre-fix program (individual "
+                    "substate writes) violates it. G: for model behaviours (4 partitions, resets/deltas/deletes) and EVERY commit the "
+                    "real store's write operations are counted through hook H1 (kinds seen: %s); for each position w (%s) the commit is "
+                    "stopped right before write w on a fresh copy of the on-disk store, the store is reopened, and version, root and the "
+                    "full substate listing are validated by TraceMerkleCommit.tla (pre or post state, root = the StateTree term of the SAME "
+                    "state). %d stops, %d of them in commits with more than one write; distinct = distinct (update, position)" %
+                    (",".join(kinds), "sampled: first 4, last, 2 random" if q else "all positions", stopped, multi)}
+
+
 PROPS = {
+    "C17": dict(fn=C17, level="model_checking", design_ref="5/C17",
+                technique="TLA+ spec StateTree (sparse-Merkle commitment as a term): TLC checks binding on a bounded universe; model behaviours replayed into the state tree, roots compared with the evaluated term",
+                text="The root the tree must have is specified independently of the Jellyfish algorithm as the collapsed binary sparse-Merkle "
+                     "term over (entity, partition, sort key, value hash). TLC checks the term is binding on the bounded universe; every "
+                     "behaviour TLC generates is replayed into put_at_next_version / StateTreeUpdatingDatabase / the RocksDB Merkle store and "
+                     "after every commit the real root must equal the term evaluated with an independent blake2b, the listed substate hashes "
+                     "must equal the model's leaves, and re-batching the same state must give the same root.",
+                note="Trusted: TLC, the blake2 crate used by the term evaluator, the single-byte key concretisation. Keys are prefix-free single bytes per tier in replay."),
+    "C18": dict(fn=C18, level="model_checking", design_ref="5/C18",
+                technique="TLA+ specs PruneModel (design) + TraceStateTree (valid node stores): trace validation of the logged node graph of the real state tree",
+                text="TLC checks the pruning-safety argument on a reference path-copying trie over all bounded histories, and validates the "
+                     "REAL implementation's node store: a logging TreeStore records every inserted node and every stale part; the trace "
+                     "specification rebuilds the graph across the three tiers, prunes as reported and evaluates Live and StaleDead after "
+                     "every commit of seeded histories that delete and re-create entities and partitions.",
+                note="Trusted: TLC, the graph projection in the harness (child keys via gen_child_node_key, cross-tier links from leaf payload versions)."),
+    "C19": dict(fn=C19, level="model_checking", design_ref="5/C19",
+                technique="TLA+ spec MerkleCommit (commit as a program of durable writes with Crash between steps) + crash-point enumeration in the real RocksDB store through hook H1, validated by TraceMerkleCommit",
+                text="TLC checks that the commit program as coded is consistent at every crash position (and that the pre-fix program is not). "
+                     "The real store is stopped before each individual write operation of each commit (cfg-guarded wrapper of the RocksDB "
+                     "handle), reopened, and its version, root hash and substates are checked by the trace specification to be exactly the "
+                     "pre-commit or the post-commit state, with the root compared against the StateTree commitment term.",
+                note="Trusted: TLC, hook H1 (numbers every put/delete/delete_range/write issued through the store's DB handle), unwinding as the "
+                     "stop model (no torn single write; RocksDB's own atomicity of WriteBatch is assumed), blake2 crate."),
+    "C14": dict(fn=C14, level="model_checking", design_ref="5/C14",
+                technique="TLA+ specs SubstateStore/Overlay: TLC refinement check (overlay vs flat database) + model behaviours replayed into SubstateDatabaseOverlay",
+                text="TLC proves on two exhaustive small instances that the overlay's merge rules and staged-first reads are "
+                     "observationally equal to the base database with the commits applied (gets, ordered listings from any cursor, "
+                     "merge into root). Model-generated behaviours (every base, commit sequences with sets, deletes, resets; "
+                     "exhaustive tiny instance + seeded simulation) are replayed into the real SubstateDatabaseOverlay and every "
+                     "observation after every commit is compared with the model, incl. overlay-over-overlay and the merged root.",
+                note="Trusted: TLC, the key/value concretisation in the harness, InMemorySubstateDatabase as root (itself checked by C15). "
+                     "list_partition_keys of the overlay is outside the statement (DESIGN L6)."),
+    "C15": dict(fn=C15, level="model_checking", design_ref="5/C15",
+                technique="TLA+ spec SubstateStore as the common reference: model behaviours replayed into the three stores + trace validation of random byte-key histories",
+                text="The abstract database of SubstateStore.tla is the single reference for all three store implementations: "
+                     "model behaviours are committed to each store and every get, ordered listing from every cursor and the set of "
+                     "partitions is compared with the model (hence the stores with each other); seeded histories over arbitrary "
+                     "byte-string keys within the size limits are recorded from the real stores (with close/reopen of the RocksDB "
+                     "stores) and validated by TraceStore.tla after every commit.",
+                note="Trusted: TLC, the rank projection of byte keys in the harness. RocksDB itself is exercised on a local temp dir."),
     "C13": dict(fn=C13, level="model_checking", design_ref="5/C13",
                 technique="TLA+ spec SubstateLocks: TLC exhaustive check + all-behaviours replay into SubstateLocks<()> + trace validation of recorded lock streams",
                 text="TLC checks writer exclusivity and handle freshness on every reachable state of the lock-table "
